@@ -1,6 +1,7 @@
 import RV.Lemmas.ClosedLoopBG
 import RV.Props.ExecutorXThms
 import RV.Props.ReconcileThms
+import RV.Lemmas.ClosedLoop
 /-!
 # The blue-green closed loop (C01, C04, C05, C06, C09, C10)
 
@@ -23,6 +24,7 @@ namespace RV.Props.ClosedLoopBG
 open RV.Arith IntOrPct RV.Traffic RV.ClosedLoopBG RV.Oracle.ClosedLoopBG RV.Lemmas.ClosedLoopBG
 open RV.ClosedLoop (CBr Label CS)
 open RV.CtlBlueGreen (Workload HPA maxReady)
+open RV.RolloutSM (World WL Sub StepResult reconcile inRolling handleFinalizer calculateStatus)
 
 /-! ## 0. the closed loop of `RV.ClosedLoop` is an instance -/
 
@@ -435,5 +437,152 @@ theorem bg_finalize_needs_resume (s s' : BS) (hs : bgStep s .br = some s') (hrel
             cases hp : b.partition with
             | none => rfl
             | some p => rw [hp] at hpart; cases hpart
+
+/-! ## 7. C10 — a newer revision is refused -/
+
+theorem bgSetAnno_self (b : BW) : bgSetAnno b.inProgressAnno b = b := by
+  unfold bgSetAnno; split <;> rfl
+
+/-- a Rollout reconcile that leaves BatchRelease, workload and network as it read them lands as a change of the Rollout only -/
+theorem landRo_frame (s : BS) (v : RolloutSM.WL) (r : StepResult) (hv : bgView s.world = some (some v))
+    (hwl : r.w.wl = some v) (hbr : r.w.br = s.br.map RV.ClosedLoop.roBr) :
+    (landRo bgLoop s r).world = s.world ∧ (landRo bgLoop s r).br = s.br := by
+  have hanno : v.inProgressAnno = s.world.inProgressAnno := by
+    unfold bgView at hv
+    split at hv
+    · cases hv
+    · split at hv
+      · cases hv
+      · simp only [Option.some.injEq] at hv; rw [← hv]
+  unfold landRo
+  dsimp only
+  rw [hwl, hbr]
+  have ha : annoLand bgLoop s.world (some v) = s.world := by
+    show bgSetAnno v.inProgressAnno s.world = s.world
+    rw [hanno]; exact bgSetAnno_self _
+  rw [ha]
+  cases hb : s.br with
+  | none => exact ⟨rfl, rfl⟩
+  | some c =>
+    simp only [Option.map_some, landBR, RV.Lemmas.ClosedLoop.updatedBr_id]
+    exact ⟨trivial, trivial⟩
+
+/-- what a Rollout reconcile of a superseded blue-green rollout returns: the world it read, with another Rollout status whose
+    step index, step state and Progressing reason are the old ones; the object stays -/
+theorem reconcile_superseded (w : World) (wl : WL) (os : Sub) (r : StepResult)
+    (hph : w.ro.phase = .progressing) (hr : w.ro.reason = .inRolling) (hdel : w.ro.deleting = false)
+    (hnp : w.ro.paused = false) (hbg : w.ro.style = .blueGreen) (hwl : w.wl = some wl) (hos : w.ro.sub = some os)
+    (hne : os.canaryRev ≠ "") (hrev : wl.canaryRev ≠ os.canaryRev) (hnrb : wl.inRollback = false)
+    (h : reconcile w = .val r) :
+    r.w.wl = w.wl ∧ r.w.br = w.br ∧ r.w.net = w.net ∧ r.w.mem = w.mem ∧ r.roGone = false ∧ r.w.ro.reason = .inRolling ∧
+    ∃ s', r.w.ro.sub = some s' ∧ s'.curIdx = os.curIdx ∧ s'.state = os.state := by
+  have hgone : (handleFinalizer w.ro).2.1 = false := by
+    unfold handleFinalizer; rw [if_neg (by simp [hdel])]; split <;> rfl
+  have hfr := RV.Props.Reconcile.hf_frame w.ro
+  cases hc : wl.consistent with
+  | false =>
+    -- the workload status is not consistent: the reconcile only waits
+    unfold reconcile at h
+    dsimp only at h
+    have : calculateStatus (handleFinalizer w.ro).1 w.wl = none := by
+      unfold calculateStatus
+      rw [hfr]; dsimp only
+      rw [if_neg (by simp [hdel]), hwl]
+      dsimp only
+      rw [if_pos (by simp [hc])]
+    rw [this] at h
+    cases h
+    dsimp only
+    refine ⟨rfl, rfl, rfl, rfl, hgone, ?_, os, ?_, rfl, rfl⟩
+    · rw [hfr]; exact hr
+    · rw [hfr]; exact hos
+  | true =>
+    obtain ⟨ns, s, hsame, hs, hcore, hreason, hrec⟩ := RV.Props.Reconcile.reconcile_inRolling w wl os hph hr hwl hc hos
+    rw [hrec] at h
+    have hbr : inRolling w w.ro ns s wl =
+        .val { w := { w with ro := ns }, roGone := false, requeue := false, err := false, writes := [] } := by
+      unfold inRolling
+      dsimp only
+      rw [hos]
+      dsimp only
+      rw [if_neg (by intro hh; rw [hnrb] at hh; exact Bool.false_ne_true hh.1), if_neg (by rw [hsame.2.2.2.1, hnp]; exact Bool.false_ne_true),
+          if_neg (by intro hh; rw [hnrb] at hh; exact Bool.false_ne_true hh.1), if_pos ⟨hne, hrev, by rw [hnrb]; exact Bool.false_ne_true⟩,
+          if_pos (by rw [hsame.2.2.1]; exact hbg)]
+    rw [hbr] at h
+    simp only [Bool.false_eq_true, if_false, RolloutSM.Out.val.injEq] at h
+    subst h
+    simp only [RV.Props.Reconcile.subCore, Prod.mk.injEq] at hcore
+    exact ⟨rfl, rfl, rfl, rfl, hgone, by rw [hreason]; exact hr, s, hs, hcore.1, hcore.2.2.1⟩
+
+/-- **`bg_refuses_continuous`, the Rollout controller** (C10) — for EVERY state (reachable or not): while the workload is on a
+    revision newer than the one the blue-green rollout is releasing (and it is not the stable one: the user has not rolled back),
+    a Rollout reconcile changes nothing that is exposed — not the CloneSet's settings and markers, not the HPAs, not a network
+    object, not the BatchRelease's plan — and the rollout stays on its step, in its step state, InRolling. -/
+theorem bg_refuses_continuous_ro (s s' : BS) (hsup : superseded s = true) (hs : bgStep s .ro = some s') :
+    refusesContinuous s .ro s' = true := by
+  unfold superseded at hsup
+  simp only [Bool.and_eq_true, Bool.not_eq_true', decide_eq_true_eq, Option.isSome_iff_exists] at hsup
+  obtain ⟨⟨⟨⟨⟨⟨⟨hgone, hstyle⟩, hph⟩, hr⟩, hdel⟩, hnp⟩, ⟨wl0, hwl0⟩⟩, hsub⟩ := hsup
+  cases hos : s.ro.sub with
+  | none => rw [hos] at hsub; cases hsub
+  | some os =>
+    rw [hos] at hsub
+    simp only [Bool.and_eq_true, decide_eq_true_eq, ne_eq] at hsub
+    obtain ⟨⟨hne, hrev⟩, hnotstable⟩ := hsub
+    unfold bgStep at hs
+    simp only [step, stepRo] at hs
+    rw [if_neg (by simp [hgone])] at hs
+    split at hs
+    · cases hs
+    · rename_i w hw
+      split at hs
+      · cases hs
+      · rename_i r hrec
+        injection hs with hs; subst hs
+        -- the world the reconcile read
+        unfold roWorld at hw
+        split at hw
+        · cases hw
+        · rename_i v hv
+          injection hw with hw; subst hw
+          have hv' : bgLoop.view s.world = bgView s.world := rfl
+          rw [hv'] at hv
+          have hvfacts : ∃ wv, v = some wv ∧ wv.canaryRev = s.world.updateRevision ∧
+              (wv.inRollback = true → s.world.currentRevision = s.world.updateRevision) := by
+            unfold bgView at hv
+            rw [hwl0] at hv
+            dsimp only at hv
+            split at hv
+            · cases hv
+            · simp only [Option.some.injEq] at hv
+              refine ⟨_, hv.symm, rfl, ?_⟩
+              intro h; simp only [Bool.and_eq_true, decide_eq_true_eq] at h; exact h.1.2
+          obtain ⟨wv, hvs, hcan, hrb⟩ := hvfacts
+          subst hvs
+          have hnrb : wv.inRollback = false := by
+            cases hb : wv.inRollback with
+            | false => rfl
+            | true => exact absurd (hrb hb).symm hnotstable
+          obtain ⟨e1, e2, e3, e4, e5, e6, sx, e7, e8, e9⟩ :=
+            reconcile_superseded _ wv os r hph hr hdel hnp hstyle.symm rfl hos hne (by rw [hcan]; exact fun e => hrev e.symm) hnrb hrec
+          obtain ⟨f1, f2⟩ := landRo_frame s wv r hv e1 e2
+          unfold refusesContinuous
+          dsimp only
+          rw [if_pos (by
+            unfold superseded
+            simp only [Bool.and_eq_true, Bool.not_eq_true', decide_eq_true_eq, Option.isSome_iff_exists, hos, ne_eq]
+            exact ⟨⟨⟨⟨⟨⟨⟨hgone, hstyle⟩, hph⟩, hr⟩, hdel⟩, hnp⟩, ⟨wl0, hwl0⟩⟩, ⟨hne, hrev⟩, hnotstable⟩)]
+          have hexp : exposureOf (landRo bgLoop s r) = exposureOf s := by
+            unfold exposureOf
+            rw [f1, f2]
+            show _ = _
+            congr 1
+          rw [hos]
+          have hsub' : (landRo bgLoop s r).ro.sub = some sx := e7
+          have hreason' : (landRo bgLoop s r).ro.reason = .inRolling := e6
+          have hgone' : (landRo bgLoop s r).gone = false := e5
+          rw [hsub']
+          simp only [hexp, decide_true, Bool.true_and, Bool.and_eq_true, decide_eq_true_eq, Bool.not_eq_true']
+          exact ⟨⟨⟨e8.symm, e9.symm⟩, hreason'⟩, hgone'⟩
 
 end RV.Props.ClosedLoopBG
